@@ -535,4 +535,107 @@ theorem Full_other_no_panic (cfg : Cfg) (s : St) (hJ : J cfg s) (tok : Model.Tok
         · simp at he
     · simp at he
 
+/-! ### whole event sequences -/
+
+/-- the event is well-kinded and the attributes handed over with a start tag are sliceable -/
+def EvOk : CtlEv → Prop
+  | .start n ns info tok => (∃ aux, auxConv info = some aux) ∧ (CtlEv.start n ns info tok).WellKinded
+  | e => e.WellKinded
+
+theorem ctlStep_no_panic (cfg : Cfg) (hb : IdsBounded (theProgram cfg) cfg.sels.length) (s : St) (hJ : J cfg s)
+    (ev : CtlEv) (hev : EvOk ev) :
+    ((ctlStep cfg s ev).2 = none → J cfg (ctlStep cfg s ev).1) ∧
+    (∀ e, (ctlStep cfg s ev).2 = some e → e = .handler ∨ Residual e) := by
+  cases ev with
+  | start name ns info tok =>
+    obtain ⟨⟨aux, ha⟩, hk⟩ := hev
+    cases tok with
+    | startTag nm attrs ns' sc raw src base =>
+      cases hv : s.vm with
+      | none => exact Full_start_no_panic_novm cfg s hJ hv name ns info nm attrs ns' sc raw src base
+      | some vm => exact Full_start_no_panic cfg s hJ hb vm hv name ns info aux ha nm attrs ns' sc raw src base
+    | endTag => simp [CtlEv.WellKinded] at hk
+    | comment => simp [CtlEv.WellKinded] at hk
+    | doctype => simp [CtlEv.WellKinded] at hk
+    | text => simp [CtlEv.WellKinded] at hk
+  | end_ name tok =>
+    cases tok with
+    | endTag nm raw src =>
+      obtain ⟨h1, h2⟩ := Full_end_no_panic cfg s hJ name nm raw src
+      exact ⟨h1, fun e he => Or.inr (h2 e he)⟩
+    | startTag => simp [EvOk, CtlEv.WellKinded] at hev
+    | comment => simp [EvOk, CtlEv.WellKinded] at hev
+    | doctype => simp [EvOk, CtlEv.WellKinded] at hev
+    | text => simp [EvOk, CtlEv.WellKinded] at hev
+  | other tok =>
+    obtain ⟨h1, h2⟩ := Full_other_no_panic cfg s hJ tok hev
+    exact ⟨h1, fun e he => Or.inl (h2 e he)⟩
+
+theorem ctlSteps_no_panic (cfg : Cfg) (hb : IdsBounded (theProgram cfg) cfg.sels.length) (evs : List CtlEv) :
+    ∀ (s : St), J cfg s → (∀ e ∈ evs, EvOk e) →
+    ((ctlSteps cfg s evs).2 = none → J cfg (ctlSteps cfg s evs).1) ∧
+    (∀ e, (ctlSteps cfg s evs).2 = some e → e = .handler ∨ Residual e) := by
+  induction evs with
+  | nil => intro s hJ _; exact ⟨fun _ => hJ, fun e he => by simp [ctlSteps] at he⟩
+  | cons ev evs ih =>
+    intro s hJ hev
+    obtain ⟨h1, h2⟩ := ctlStep_no_panic cfg hb s hJ ev (hev ev (by simp))
+    simp only [ctlSteps]
+    cases hr : (ctlStep cfg s ev).2 with
+    | some err =>
+      simp only
+      exact ⟨fun h => by simp at h, fun e he => by simp only [Option.some.injEq] at he; rw [← he]; exact h2 err hr⟩
+    | none =>
+      simp only
+      exact ih _ (h1 hr) (fun e he => hev e (by simp [he]))
+
+/-- **Full_no_panic_protocol.** From the initial state of ANY configuration (mutating and failing
+scripts included) whose compiled program only carries selector indices as match ids, along ANY sequence
+of tag / token events delivered the way the dispatcher delivers them (`ctlSteps`): the run either
+completes — and then no fault was recorded and package scope's and package selvm's invariants hold —
+or stops with a content-handler error or at one of the three residual glue sites (`Residual`). No VM
+panic (`typedCounterMissing`, `instrIndex`, `openNameCountUnderflow`), no dispatcher panic
+(`badLocator`, `badMatchId`, `itemUnderflow`, `totalUnderflow`, `tailNotDrained`, `removedUnderflow`),
+no stack / descriptor desynchronisation, no "vm req without vm". -/
+theorem Full_no_panic_protocol (cfg : Cfg) (hb : IdsBounded (theProgram cfg) cfg.sels.length)
+    (evs : List CtlEv) (hev : ∀ e ∈ evs, EvOk e) :
+    ((ctlSteps cfg (St.init cfg) evs).2 = none → J cfg (ctlSteps cfg (St.init cfg) evs).1) ∧
+    (∀ e, (ctlSteps cfg (St.init cfg) evs).2 = some e → e = .handler ∨ Residual e) :=
+  ctlSteps_no_panic cfg hb evs _ (J_init cfg) hev
+
+/-- **Full statement** (NOT proved): `IdsBounded` for every selector set. `Ast::add_selector` only inserts the
+registration index, and the compiler copies node ids into instructions; the proof is an induction over
+`insertPath` and `compileNode` that was not done. It is a decidable side-condition (`idsBoundedB`). -/
+def Full_idsBounded_statement : Prop :=
+  ∀ cfg : Cfg, IdsBounded (theProgram cfg) cfg.sels.length
+
+/-- **Full statement** (NOT proved): the calls the core dispatcher makes on the controller during a run of
+the whole model are a protocol-conforming event sequence, also in tag-scanner mode (hint, then the
+re-lexed tag) — this is C06's relex agreement for BOTH start- and end-tag hints plus a trace argument
+through `Parser.parse`. With it `Full_no_panic_protocol` gives `Full_no_panic_statement` up to the
+residual sites. -/
+def Full_protocol_statement : Prop :=
+  ∀ (cfg : Cfg) (settings : Settings) (chunks : List Bytes),
+    ∃ evs : List CtlEv, (∀ e ∈ evs, e.WellKinded) ∧
+      ((C01.run (fullWorld Gen.Syntax.table Gen.Tags.cfg cfg)
+          (C01.Rewriter.new (fullWorld Gen.Syntax.table Gen.Tags.cfg cfg) (FullSt.init cfg) settings) chunks).1.stream.disp.ctl.1.disp =
+        (ctlSteps cfg (St.init cfg) evs).1.disp)
+
+/-! ### instances -/
+
+example : idsBoundedB (theProgram obsCfg) obsCfg.sels.length = true := by decide
+example : idsBoundedB (theProgram auxCfg) auxCfg.sels.length = true := by decide
+example : idsBoundedB (theProgram hazardCfg) hazardCfg.sels.length = true := by decide
+
+/-- non-vacuity: `<div a=b>` (selector `[a]`: the InfoRequest path; `set_attribute` + `after`) … `</div>`
+as three protocol events end without error -/
+def sampleEvs : List CtlEv :=
+  [.start (.bytes [100, 105, 118]) .html ⟨[60,100,105,118,32,97,61,98,62], [⟨⟨5,6⟩, ⟨7,8⟩, ⟨5,8⟩⟩], false⟩
+      (.startTag [100,105,118] [([97], [98], ⟨⟨5,6⟩, ⟨7,8⟩, ⟨5,8⟩⟩)] .html false [60,100,105,118,32,97,61,98,62] ⟨0,9⟩ 0),
+   .other (.text [120] .data false ⟨9,10⟩),
+   .end_ (.bytes [100, 105, 118]) (.endTag [100,105,118] [60,47,100,105,118,62] ⟨10,16⟩)]
+
+example : (ctlSteps auxCfg (St.init auxCfg) sampleEvs).2 = none := by decide +kernel
+example : ((ctlSteps auxCfg (St.init auxCfg) sampleEvs).1.log.map (·.who)) = [.element 0] := by decide +kernel
+
 end LolHtml.Thm.Full
